@@ -251,4 +251,338 @@ Proof.
   unfold fuel_of. cbn [w_next]. rewrite X4. exact Hent.
 Qed.
 
+(* ---------- boolean duplicate checks *)
+Lemma nodupb_sound l : nodupb l = true -> NoDup l.
+Proof.
+  induction l as [|k r IH]; intros H; [constructor|]. cbn in H. apply andb_true_iff in H as (H1 & H2). constructor; [|auto].
+  intros Hin. apply negb_true_iff in H1. assert (existsb (bytes_eqb k) r = true); [|congruence].
+  apply existsb_exists. exists k. split; [exact Hin|apply bytes_eqb_refl].
+Qed.
+Lemma nodupN_sound l : nodupN l = true -> NoDup l.
+Proof.
+  induction l as [|k r IH]; intros H; [constructor|]. cbn in H. apply andb_true_iff in H as (H1 & H2). constructor; [|auto].
+  intros Hin. apply negb_true_iff in H1. assert (existsb (N.eqb k) r = true); [|congruence].
+  apply existsb_exists. exists k. split; [exact Hin|apply N.eqb_refl].
+Qed.
+
+(* name and type of a node are those of some node of the old world *)
+Definition NTn (w : world) (nj : node) : Prop :=
+  exists s ns, w_nodes w s = Some ns /\ n_name nj = n_name ns /\ n_type nj = n_type ns.
+Inductive NTtree (w w1 : world) : id -> Prop :=
+| NTt c nc : w_nodes w1 c = Some nc -> NTn w nc -> (forall y, In (CElem y) (n_content nc) -> NTtree w w1 y) -> NTtree w w1 c.
+
+Lemma FiltR_nt lo v w w1 :
+  (forall p s c, FiltR T lo v w w1 p s c -> NTtree w w1 c) /\
+  (forall c ty l l', FiltRItems T lo v w w1 c ty l l' -> forall y, In (CElem y) l' -> NTtree w w1 y).
+Proof.
+  apply FiltR_mutind.
+  - intros p s c ns nc Hs Hc _ _ _ Hnm Hty _ _ _ IH. econstructor; [exact Hc|exists s, ns; auto|exact IH].
+  - intros c ty y H. destruct H.
+  - intros c ty d r r' _ IH y [E|H]; [discriminate E|auto].
+  - intros c ty s cs sn x0 r r' _ _ _ _ IHn _ IHr y [E|H]; [injection E as <-; exact IHn|auto].
+  - intros c ty s sn r r' _ _ _ IHr. exact IHr.
+  - intros c ty s sn x0 r r' _ _ _ _ IHr. exact IHr.
+Qed.
+
+Lemma FiltR_inv lo v w w1 p s c : FiltR T lo v w w1 p s c ->
+  exists ns nc, w_nodes w s = Some ns /\ w_nodes w1 c = Some nc /\ lo <= c /\ n_name nc = n_name ns /\ n_type nc = n_type ns /\
+    FiltRItems T lo v w w1 c (n_type ns) (n_content ns) (n_content nc).
+Proof. intros H. inversion H; subst. eauto 10. Qed.
+Lemma FiltR_kid_lo lo v w w1 p s c nc y : FiltR T lo v w w1 p s c -> w_nodes w1 c = Some nc -> In (CElem y) (n_content nc) -> lo <= y.
+Proof.
+  intros H Hc Hy. destruct (FiltR_inv _ _ _ _ _ _ _ H) as (ns & nc' & _ & Hc' & _ & _ & _ & HIt). rewrite Hc in Hc'. injection Hc' as <-.
+  pose proof (proj2 (FiltR_fresh T lo v w w1) _ _ _ _ HIt y Hy) as HFT. inversion HFT; subst. assumption.
+Qed.
+
+Lemma renamed_cases w1 ren j :
+  (renamed w1 ren j = w_nodes w1 j /\ forall s sn nm, ren = Some (s, sn, nm) -> j <> s) \/
+  (exists s sn nm, ren = Some (s, sn, nm) /\ j = s /\ renamed w1 ren j = Some (set_content sn [CData (DString nm)])).
+Proof.
+  unfold renamed. destruct ren as [[[s sn] nm]|]; [|left; split; [reflexivity|discriminate]].
+  destruct (j =? s) eqn:E; [apply N.eqb_eq in E; right; exists s, sn, nm; auto|].
+  apply N.eqb_neq in E. left. split; [reflexivity|]. intros ? ? ? [= <- _ _]. exact E.
+Qed.
+
+Section CopyInv.
+Variables (w w' w1 w3 : world) (self c : id) (n cn0 : node) (pos : nat) (m : N) (x : model) (path : list N)
+          (L R : list (list N * id)) (ren : option (id * node * list N)) (v : N) (other : id) (ids : list id).
+Hypothesis HF : TreeFacts w.
+Hypothesis HI : Inv04 w.
+Hypothesis HI5 : Inv05 T w.
+Hypothesis Hn : w_nodes w self = Some n.
+Hypothesis Hpath : SpecPath T w m self path.
+Hypothesis Hx : model_at w m = Some x.
+Hypothesis HE : Ext w w1.
+Hypothesis HFR : FiltR T (w_next w) v w w1 PNone other c.
+Hypothesis Hcn0 : w_nodes w1 c = Some cn0.
+Hypothesis Hpos : (pos <= List.length (n_content n))%nat.
+Hypothesis Hself' : w_nodes w' self = Some (set_content n (insert_at (n_content n) pos (CElem c))).
+Hypothesis Hc' : w_nodes w' c = Some (set_parent cn0 (PElem self)).
+Hypothesis Hother : forall j, j <> self -> j <> c -> w_nodes w' j = renamed w1 ren j.
+Hypothesis Hren : forall s sn nm, ren = Some (s, sn, nm) -> (exists rest, n_content cn0 = CElem s :: rest) /\ w_nodes w1 s = Some sn /\ s <> self /\ s <> c.
+Hypothesis Hfree : identifiable T w' c = true -> exists nm, seg T w' c = 47 :: nm /\ assoc_get (path ++ 47 :: nm) (m_idents x) = None.
+Hypothesis Hmodels : w_models w' = list_set (w_models w) (N.to_nat m) (reg_apply x L R).
+Hypothesis Hw3 : forall j, w_nodes w3 j = if j =? self then Some n else w_nodes w' j.
+Hypothesis Hent : reg_entries T (fuel_of w') w3 path c = Some (L, R).
+Hypothesis HFK : FreshKids (w_next w) w'.
+(* from copy_clean *)
+Hypothesis Hnew_ids : forall j nj', w_nodes w j = None -> w_nodes w' j = Some nj' -> In j ids.
+Hypothesis Hids_ok : forall j, In j ids -> node_ok T w' j = true.
+Hypothesis Hids_nt : forall j nj', In j ids -> w_nodes w' j = Some nj' -> NTn w nj'.
+Hypothesis HLnd : NoDup (map fst L).
+Hypothesis HRnd : NoDup (map snd R).
+Hypothesis HLc : identifiable T w' c = true \/ L = [].
+(* the destination *)
+Hypothesis Hfront : pos = O -> identifiable_n T w n = false /\ (named T (n_type n) = true -> n_name cn0 <> SHORTN).
+Hypothesis Hmode : content_mode T (n_type n) <> Val MCharacters.
+
+Notation lo := (w_next w).
+
+Lemma ci_lo_c : lo <= c.
+Proof. destruct (FiltR_inv _ _ _ _ _ _ _ HFR) as (ns & nc & _ & _ & H & _). exact H. Qed.
+Lemma ci_old_lt j nj : w_nodes w j = Some nj -> j < lo.
+Proof. intros H. eapply tf_alloc; eauto. Qed.
+Lemma ci_self_lt : self < lo.
+Proof. eapply ci_old_lt; eauto. Qed.
+Lemma ci_c_none : w_nodes w c = None.
+Proof. destruct (w_nodes w c) as [a|] eqn:E; [|reflexivity]. pose proof (ci_old_lt c a E). pose proof ci_lo_c. lia. Qed.
+Lemma ci_ren_lo s sn nm : ren = Some (s, sn, nm) -> lo <= s.
+Proof.
+  intros E. destruct (Hren s sn nm E) as ((rest & Hc0) & _). eapply (FiltR_kid_lo _ _ _ _ _ _ _ cn0 s HFR Hcn0). rewrite Hc0. left. reflexivity.
+Qed.
+Lemma ci_old j nj : w_nodes w j = Some nj -> j <> self -> w_nodes w' j = Some nj.
+Proof.
+  intros Hj Hne. pose proof (ci_old_lt j nj Hj) as Hlt. rewrite Hother; [|exact Hne|pose proof ci_lo_c; lia].
+  destruct (renamed_cases w1 ren j) as [(-> & _)|(s & sn & nm & Er & -> & _)].
+  - destruct HE as (_ & Hk & _). rewrite Hk by exact Hlt. exact Hj.
+  - pose proof (ci_ren_lo s sn nm Er). lia.
+Qed.
+Lemma ci_new_lo p np' : w_nodes w p = None -> w_nodes w' p = Some np' -> lo <= p.
+Proof.
+  intros Hp Hp'. destruct (N.lt_ge_cases p lo) as [Hlt|Hge]; [exfalso|exact Hge].
+  assert (p <> self) by (intros ->; congruence). pose proof ci_lo_c.
+  rewrite Hother in Hp'; [|assumption|lia].
+  destruct (renamed_cases w1 ren p) as [(E & _)|(s & sn & nm & Er & -> & _)].
+  - rewrite E in Hp'. destruct HE as (_ & Hk & _). rewrite Hk in Hp' by exact Hlt. congruence.
+  - pose proof (ci_ren_lo s sn nm Er). lia.
+Qed.
+Lemma ci_newkids p y : child_of w' p y -> w_nodes w p = None -> w_nodes w y = None.
+Proof.
+  intros (np' & Hp' & Hy) Hp. pose proof (ci_new_lo p np' Hp Hp') as Hlo. pose proof (HFK p np' y Hlo Hp' Hy) as Hy_lo.
+  destruct (w_nodes w y) as [a|] eqn:E; [|reflexivity]. pose proof (ci_old_lt y a E). lia.
+Qed.
+Lemma ci_nshort : n_name n <> SHORTN.
+Proof. intros E. destruct (i4_short _ _ _ HI _ _ Hn E) as (Hm & _). contradiction. Qed.
+Lemma ci_front : pos = O -> identifiable_n T w n = false /\
+  (named T (n_type n) = true -> forall cn, w_nodes w' c = Some cn -> n_name cn <> SHORTN).
+Proof.
+  intros Hp. destruct (Hfront Hp) as (H1 & H2). split; [exact H1|]. intros Hnm cn Hcn. rewrite Hc' in Hcn. injection Hcn as <-. exact (H2 Hnm).
+Qed.
+Lemma ci_roots m2 : option_map m_root (model_at w' m2) = option_map m_root (model_at w m2).
+Proof.
+  destruct (N.eq_dec m2 m) as [->|Hne].
+  - rewrite (model_at_set_same _ _ _ _ Hmodels _ Hx), Hx. reflexivity.
+  - rewrite (model_at_set_other _ _ _ _ _ Hmodels Hne). reflexivity.
+Qed.
+Lemma ci_selfnoref : isref T (n_type n) = false.
+Proof.
+  unfold isref. destruct (is_ref T (n_type n)) as [[|]| |] eqn:E; try reflexivity. exfalso. apply Hmode. apply (tk_ref _ _ TK _ E).
+Qed.
+
+(* the fresh subtree in w3 (the world of the registration walk) and in w' *)
+Lemma ci_w3_fresh j : lo <= j -> w_nodes w3 j = w_nodes w' j.
+Proof. intros Hj. rewrite Hw3. pose proof ci_self_lt. destruct (j =? self) eqn:E; [apply N.eqb_eq in E; lia|reflexivity]. Qed.
+Lemma ci_child3 p y : lo <= p -> (child_of w3 p y <-> child_of w' p y).
+Proof. intros Hp. unfold child_of. rewrite (ci_w3_fresh p Hp). tauto. Qed.
+Lemma ci_kid_lo p y : lo <= p -> child_of w' p y -> lo <= y.
+Proof. intros Hp (np & Hnp & Hy). eapply HFK; eauto. Qed.
+Lemma ci_readings3 j : lo <= j -> seg T w3 j = seg T w' j /\ identifiable T w3 j = identifiable T w' j /\ ref_text T w3 j = ref_text T w' j.
+Proof.
+  intros Hj. unfold seg, identifiable, ref_text. rewrite (ci_w3_fresh j Hj). destruct (w_nodes w' j) as [nj|] eqn:Ej; [|auto].
+  assert (Hsc : short_child T w3 nj = short_child T w' nj).
+  { rewrite !short_child_hd. destruct (hd_error (n_content nj)) as [[y|d]|] eqn:Eh; try reflexivity.
+    assert (Hy : child_of w' j y).
+    { exists nj. split; [exact Ej|]. destruct (n_content nj); cbn in Eh; [discriminate|]. injection Eh as ->. left. reflexivity. }
+    rewrite (ci_w3_fresh y (ci_kid_lo j y Hj Hy)). reflexivity. }
+  destruct (readings_ext T w' w3 nj nj eq_refl Hsc) as (_ & H2 & H3). auto.
+Qed.
+Lemma ci_dpath3 i q : dpath T w3 c i q <-> dpath T w' c i q.
+Proof.
+  split.
+  - intros Hd. apply (dpath_fwd T (fun j => lo <= j) w3 w'); [|exact ci_lo_c|exact Hd].
+    intros p y Hp Hc. apply (ci_child3 p y Hp) in Hc. pose proof (ci_kid_lo p y Hp Hc) as Hy. split; [exact Hc|]. split; [exact Hy|].
+    symmetry. apply ci_readings3. exact Hy.
+  - intros Hd. apply (dpath_fwd T (fun j => lo <= j) w' w3); [|exact ci_lo_c|exact Hd].
+    intros p y Hp Hc. pose proof (ci_kid_lo p y Hp Hc) as Hy. split; [apply (ci_child3 p y Hp); exact Hc|]. split; [exact Hy|].
+    apply ci_readings3. exact Hy.
+Qed.
+Lemma ci_reach_lo i : reach T w' c i -> lo <= i.
+Proof.
+  intros (q & Hd). apply (dpath_fwd T (fun j => lo <= j) w' w') in Hd; [tauto| |exact ci_lo_c].
+  intros p y Hp Hc. split; [exact Hc|]. split; [eapply ci_kid_lo; eauto|reflexivity].
+Qed.
+Lemma ci_reach_new i : reach T w' c i -> w_nodes w i = None.
+Proof.
+  intros Hr. pose proof (ci_reach_lo i Hr). destruct (w_nodes w i) as [a|] eqn:E; [|reflexivity]. pose proof (ci_old_lt i a E). lia.
+Qed.
+
+(* the entries of the walk, in the final world *)
+Lemma ci_L_spec p j : In (p, j) L <-> exists q, dpath T w' c j q /\ identifiable T w' j = true /\ p = path ++ seg T w' c ++ q.
+Proof.
+  destruct (reg_sound T _ _ _ _ _ _ Hent) as (S1 & _). destruct (reg_complete T _ _ _ _ _ _ Hent) as (C1 & _).
+  destruct (ci_readings3 c ci_lo_c) as (Hsc & _). split.
+  - intros Hin. destruct (S1 p j Hin) as (q & Hd & Hid & ->). exists q. apply ci_dpath3 in Hd as Hd'.
+    assert (Hj : lo <= j) by (apply ci_reach_lo; exists q; exact Hd'). destruct (ci_readings3 j Hj) as (_ & Hi & _).
+    split; [exact Hd'|]. split; [rewrite <- Hi; exact Hid|]. rewrite Hsc. reflexivity.
+  - intros (q & Hd & Hid & ->). assert (Hj : lo <= j) by (apply ci_reach_lo; exists q; exact Hd).
+    destruct (ci_readings3 j Hj) as (_ & Hi & _). rewrite <- Hsc. apply C1; [apply ci_dpath3; exact Hd|rewrite Hi; exact Hid].
+Qed.
+Lemma ci_R_spec r j : In (r, j) R <-> reach T w' c j /\ ref_text T w' j = Some r.
+Proof.
+  destruct (reg_sound T _ _ _ _ _ _ Hent) as (_ & S2). destruct (reg_complete T _ _ _ _ _ _ Hent) as (_ & C2). split.
+  - intros Hin. destruct (S2 r j Hin) as ((q & Hd) & Ht). apply ci_dpath3 in Hd.
+    assert (Hj : lo <= j) by (apply ci_reach_lo; exists q; exact Hd). destruct (ci_readings3 j Hj) as (_ & _ & Hr).
+    split; [exists q; exact Hd|rewrite <- Hr; exact Ht].
+  - intros ((q & Hd) & Ht). assert (Hj : lo <= j) by (apply ci_reach_lo; exists q; exact Hd).
+    destruct (ci_readings3 j Hj) as (_ & _ & Hr). apply C2; [exists q; apply ci_dpath3; exact Hd|rewrite Hr; exact Ht].
+Qed.
+
+(* the new keys are not keys of the old index *)
+Lemma ci_L_fresh p j : In (p, j) L -> assoc_get p (m_idents x) = None.
+Proof.
+  intros Hin. destruct HLc as [Hid|HL]; [|rewrite HL in Hin; destruct Hin].
+  destruct (Hfree Hid) as (nm & Hsg & Hfr). apply ci_L_spec in Hin as (q & Hd & _ & ->). rewrite Hsg.
+  destruct (assoc_get (path ++ (47 :: nm) ++ q) (m_idents x)) as [z|] eqn:Ez; [exfalso|reflexivity].
+  apply (i4_exact _ _ _ HI m x Hx) in Ez as (_ & _ & Hspz).
+  pose proof (slashfree_names T w (i4_slash _ _ _ HI)) as HNS.
+  destruct (prefix_is_path T w m z _ (path ++ 47 :: nm) q HNS Hspz) as (y & Hy1 & Hy2 & _).
+  - rewrite <- app_assoc. reflexivity.
+  - eapply dpath_boundary; eauto.
+  - intros E. apply app_eq_nil in E as (_ & E). discriminate.
+  - assert (Hk : assoc_get (path ++ 47 :: nm) (m_idents x) = Some y).
+    { apply (i4_exact _ _ _ HI m x Hx). split; [eapply specpath_mreach; eauto|]. split; assumption. }
+    congruence.
+Qed.
+
+Lemma ci_idents m2 x2' : model_at w' m2 = Some x2' ->
+  (m2 = m /\ m_idents x2' = ins_all L (m_idents x) /\ m_origins x2' = addo_all R (m_origins x)) \/
+  (m2 <> m /\ model_at w m2 = Some x2').
+Proof.
+  intros H. destruct (N.eq_dec m2 m) as [->|Hne].
+  - left. rewrite (model_at_set_same _ _ _ _ Hmodels _ Hx) in H. injection H as <-. auto.
+  - right. rewrite (model_at_set_other _ _ _ _ _ Hmodels Hne) in H. auto.
+Qed.
+
+(* side invariants of the new nodes *)
+Lemma ci_newside j nj' : ~ old w j -> w_nodes w' j = Some nj' ->
+  (n_name nj' = SHORTN -> short_type T check_fn (n_type nj')) /\
+  (forall t, n_name nj' = SHORTN -> cdata_of T nj' = Some (DString t) -> ~ In 47 t) /\
+  (identifiable_n T w' nj' = true -> item_name_n T w' nj' <> None) /\
+  (content_mode T (n_type nj') = Val MCharacters -> chars_content (n_content nj')).
+Proof.
+  intros Hno Hj. assert (Hwj : w_nodes w j = None) by (destruct (w_nodes w j) eqn:E; [exfalso; apply Hno; eexists; eauto|reflexivity]).
+  pose proof (Hnew_ids j nj' Hwj Hj) as Hin. pose proof (Hids_ok j Hin) as Hok. destruct (Hids_nt j nj' Hin Hj) as (s0 & ns & Hs0 & Hnm & Hty).
+  unfold node_ok in Hok. rewrite Hj in Hok. apply andb_true_iff in Hok as (Hok & H3). apply andb_true_iff in Hok as (H1 & H2).
+  split; [intros E; rewrite Hty; eapply (i4_short _ _ _ HI s0 ns Hs0); rewrite <- Hnm; exact E|]. split; [|split].
+  - intros t E Hcd. apply N.eqb_eq in E. rewrite E, Hcd in H2. cbn in H2. apply negb_true_iff in H2.
+    intros Hi. assert (existsb (N.eqb 47) t = true); [|congruence]. apply existsb_exists. exists 47. split; [exact Hi|reflexivity].
+  - intros Hid. rewrite Hid in H1. cbn in H1. destruct (item_name_n T w' nj'); [discriminate|discriminate H1].
+  - intros Hm. rewrite Hm in H3. cbn in H3. destruct (n_content nj') as [|[y|d] [|z r]]; try discriminate; [left; reflexivity|right; eexists; reflexivity].
+Qed.
+
+Theorem copy_inv04 : Inv04 w'.
+Proof.
+  pose proof HI as [I1 I2 I3 IL I4 I5].
+  eapply attach_inv04 with (w := w) (self := self) (c := c) (n := n) (k := pos) (mm := m) (ps := path).
+  - exact HF.
+  - exact Hn.
+  - exact ci_old.
+  - exact Hself'.
+  - exact ci_c_none.
+  - exact ci_newkids.
+  - exact Hpos.
+  - exact ci_nshort.
+  - exact ci_front.
+  - exact ci_roots.
+  - exact Hpath.
+  - exact I1.
+  - exact I2.
+  - exact I3.
+  - exact IL.
+  - exact Hmode.
+  - exact ci_newside.
+  - (* old elements *)
+    intros m2 x2' Hx2' p i (ni & Hi). destruct (ci_idents m2 x2' Hx2') as [(-> & Hid & _)|(Hne & Hx2)].
+    + rewrite Hid, (ins_all_get L (m_idents x) p HLnd). destruct (assoc_get p L) as [j|] eqn:El.
+      * apply assoc_get_in in El. pose proof (ci_L_fresh p j El) as Hfr. split.
+        -- intros [= ->]. exfalso. apply ci_L_spec in El as (q & Hd & _). rewrite (ci_reach_new i (ex_intro _ q Hd)) in Hi. discriminate.
+        -- intros HP. apply (I4 m x Hx) in HP. congruence.
+      * apply (I4 m x Hx).
+    + apply (I4 m2 x2' Hx2).
+  - (* new elements *)
+    intros m2 x2' Hx2' p i Hno. assert (Hwi : w_nodes w i = None) by (destruct (w_nodes w i) eqn:E; [exfalso; apply Hno; eexists; eauto|reflexivity]).
+    destruct (ci_idents m2 x2' Hx2') as [(-> & Hid & _)|(Hne & Hx2)].
+    + rewrite Hid, (ins_all_get L (m_idents x) p HLnd). split.
+      * intros H. split; [reflexivity|]. destruct (assoc_get p L) as [j|] eqn:El.
+        -- injection H as ->. apply assoc_get_in in El. apply ci_L_spec. exact El.
+        -- exfalso. apply (I4 m x Hx) in H as (Hr & _). destruct (mreach_alloc T _ _ _ HF Hr) as (a & Ha). congruence.
+      * intros (_ & Hq). apply ci_L_spec in Hq. rewrite (in_assoc_get p L i HLnd Hq). reflexivity.
+    + rewrite (I4 m2 x2' Hx2 p i). split.
+      * intros (Hr & _). destruct (mreach_alloc T _ _ _ HF Hr) as (a & Ha). congruence.
+      * intros (E & _). contradiction.
+  - intros m2 x2' Hx2'. destruct (ci_idents m2 x2' Hx2') as [(-> & Hid & _)|(Hne & Hx2)].
+    + rewrite Hid. apply ins_all_nodup. apply (I5 m x Hx).
+    + apply (I5 m2 x2' Hx2).
+Qed.
+
+Theorem copy_inv05 : Inv05 T w'.
+Proof.
+  pose proof HI5 as [IE IT].
+  eapply attach_inv05 with (w := w) (self := self) (c := c) (n := n) (k := pos) (mm := m) (ps := path).
+  - exact HF.
+  - exact Hn.
+  - exact ci_old.
+  - exact Hself'.
+  - exact ci_c_none.
+  - exact ci_newkids.
+  - exact Hpos.
+  - exact ci_nshort.
+  - exact ci_front.
+  - exact ci_roots.
+  - exact Hpath.
+  - exact ci_selfnoref.
+  - intros m2 x2' Hx2' p r (nr & Hr). destruct (ci_idents m2 x2' Hx2') as [(-> & _ & Ho)|(Hne & Hx2)].
+    + unfold origins_of. rewrite Ho. fold (oget p (addo_all R (m_origins x))). rewrite addo_all_oget, in_app_iff.
+      destruct (IE m x Hx p) as (_ & Hiff). unfold origins_of in Hiff. fold (oget p (m_origins x)) in Hiff. rewrite Hiff. split; [|auto].
+      intros [H|H]; [exact H|]. exfalso. apply in_map_iff in H as ((r0 & j0) & E0 & Hf). cbn in E0. subst j0.
+      apply filter_In in Hf as (Hin & _). apply ci_R_spec in Hin as (Hre & _). rewrite (ci_reach_new r Hre) in Hr. discriminate.
+    + destruct (IE m2 x2' Hx2 p) as (_ & Hiff). exact (Hiff r).
+  - intros m2 x2' Hx2' p r Hno. assert (Hwr : w_nodes w r = None) by (destruct (w_nodes w r) eqn:E; [exfalso; apply Hno; eexists; eauto|reflexivity]).
+    destruct (ci_idents m2 x2' Hx2') as [(-> & _ & Ho)|(Hne & Hx2)].
+    + unfold origins_of. rewrite Ho. fold (oget p (addo_all R (m_origins x))). rewrite addo_all_oget, in_app_iff. split.
+      * intros [H|H].
+        -- exfalso. destruct (IE m x Hx p) as (_ & Hiff). apply Hiff in H as (Hrm & _). destruct (mreach_alloc T _ _ _ HF Hrm) as (a & Ha). congruence.
+        -- apply in_map_iff in H as ((r0 & j0) & E0 & Hf). cbn in E0. subst j0. apply filter_In in Hf as (Hin & Hk). cbn in Hk.
+           destruct (bytes_dec r0 p) as [->|]; [|discriminate]. apply ci_R_spec in Hin. tauto.
+      * intros (_ & Hre & Ht). right. apply in_map_iff. exists (p, r). split; [reflexivity|]. apply filter_In. split; [apply ci_R_spec; auto|].
+        cbn. destruct (bytes_dec p p); [reflexivity|contradiction].
+    + destruct (IE m2 x2' Hx2 p) as (_ & Hiff). rewrite (Hiff r). split.
+      * intros (Hrm & _). destruct (mreach_alloc T _ _ _ HF Hrm) as (a & Ha). congruence.
+      * intros (E & _). contradiction.
+  - intros m2 x2' p Hx2'. destruct (ci_idents m2 x2' Hx2') as [(-> & _ & Ho)|(Hne & Hx2)]; [|apply (IE m2 x2' Hx2 p)].
+    unfold origins_of. rewrite Ho. fold (oget p (addo_all R (m_origins x))). rewrite addo_all_oget.
+    destruct (IE m x Hx p) as (Hnd & Hiff). unfold origins_of in Hnd, Hiff. fold (oget p (m_origins x)) in Hnd, Hiff.
+    apply RefsProofsReport.nodup_app; [exact Hnd| |].
+    + clear -HRnd. induction R as [|[r0 j0] R0 IH]; [constructor|]. cbn [map snd] in HRnd. inversion HRnd as [|? ? Hni Hnd']; subst.
+      cbn [filter fst]. destruct (bytes_dec r0 p); [|apply IH; exact Hnd']. cbn [map snd]. constructor; [|apply IH; exact Hnd'].
+      intros Hin. apply Hni. apply in_map_iff in Hin as (e9 & E9 & Hf). apply filter_In in Hf as (Hf & _). apply in_map_iff. exists e9. auto.
+    + intros r H1 H2. apply Hiff in H1 as (Hrm & _). destruct (mreach_alloc T _ _ _ HF Hrm) as (a & Ha).
+      apply in_map_iff in H2 as ((r0 & j0) & E0 & Hf). cbn in E0. subst j0. apply filter_In in Hf as (Hin & _).
+      apply ci_R_spec in Hin as (Hre & _). rewrite (ci_reach_new r Hre) in Ha. discriminate.
+  - intros m2 x2' Hx2'. destruct (ci_idents m2 x2' Hx2') as [(-> & _ & Ho)|(Hne & Hx2)]; [|apply (IT m2 x2' Hx2)].
+    rewrite Ho. apply addo_all_tidy. apply (IT m x Hx).
+Qed.
+
+End CopyInv.
+
 End Copy.
